@@ -837,6 +837,43 @@ def _canon_exc(e: BaseException) -> list:
     return ["EXC", type(e).__name__]
 
 
+# Robustness of the oracle itself: a wrong accelerator can make a walk of the REAL code run away (e.g. get_depth on a
+# parent relation with a cycle never terminates and grows without bound).  Every real-code query therefore runs under
+# a wall-clock limit and a result-size cap; hitting either is an ANSWER ("does not terminate") that takes part in the
+# pair comparison like any other, never a hang of the harness.
+QUERY_TIME_LIMIT = 3.0          # seconds per query (they take milliseconds on these repositories)
+ABLATION_TIME_LIMIT = 1.0       # per query while re-asking for attribution
+RESULT_SIZE_CAP = 50_000        # elements
+MAX_UNMATCHED_PER_SCENARIO = 4  # unexplained differing pairs reported per scenario, then the scenario is abandoned
+MAX_UNMATCHED_TOTAL = 12        # … per run, then the twin stream stops: the verdict is already a violation
+ATTRIBUTION_BUDGET_S = 25.0     # wall time spent re-asking for attribution per scenario
+TIMEOUT = ["EXC", "TIMEOUT"]
+SKIPPED = ["SKIPPED"]
+
+
+class _QueryTimeout(BaseException):
+    """Raised by SIGALRM inside a query (a BaseException, so that `except Exception` in the code under test does
+    not swallow it)."""
+
+
+def _timed(fn, limit: float):
+    import signal
+
+    def on_alarm(signum, frame):
+        raise _QueryTimeout()
+    old = signal.signal(signal.SIGALRM, on_alarm)
+    signal.setitimer(signal.ITIMER_REAL, limit)
+    try:
+        return fn()
+    finally:
+        signal.setitimer(signal.ITIMER_REAL, 0)
+        signal.signal(signal.SIGALRM, old)
+
+
+def _runaway(ans) -> bool:
+    return isinstance(ans, list) and len(ans) >= 2 and ans[0] == "EXC" and ans[1] in ("TIMEOUT", "RESULT-TOO-LARGE")
+
+
 def _try(fn):
     try:
         return fn()
@@ -875,8 +912,10 @@ def make_plan(tw: Twin, rng, n_each=5) -> dict:
     return plan
 
 
-def ask(repo, tw: Twin, plan: dict) -> dict:
-    """Answers of one repository handle to every query of the plan.  Keys are JSON strings."""
+def ask(repo, tw: Twin, plan: dict, limit: float = QUERY_TIME_LIMIT) -> dict:
+    """Answers of one repository handle to every query of the plan.  Keys are JSON strings.  Each query runs under
+    `limit` seconds and the result-size cap; after one query of a kind ran away the remaining queries of that kind are
+    skipped in this pass (SKIPPED is ignored by the comparison), so a pass costs at most one limit per kind."""
     import hashlib
     import json
     from dulwich.graph import can_fast_forward, find_merge_base, find_octopus_base
@@ -885,8 +924,21 @@ def ask(repo, tw: Twin, plan: dict) -> dict:
     st = repo.object_store
     out = {}
 
+    ran_away: set = set()
+
     def put(key, fn):
-        out[json.dumps(key)] = _try(fn)
+        if key[0] in ran_away:
+            out[json.dumps(key)] = SKIPPED
+            return
+        try:
+            ans = _timed(lambda: _try(fn), limit)
+        except _QueryTimeout:
+            ans = TIMEOUT
+        if isinstance(ans, list) and len(ans) > RESULT_SIZE_CAP:
+            ans = ["EXC", "RESULT-TOO-LARGE", len(ans)]
+        if _runaway(ans):
+            ran_away.add(key[0])
+        out[json.dumps(key)] = ans
     absent = [hashlib.sha1(b"absent%d" % i).hexdigest().encode() for i in range(2)]
     # 1. object lookup
     for oid in sorted(tw.kind) + absent + tw.extra_ids:
@@ -1005,22 +1057,30 @@ class Ablation:
     """Answers of A with some accelerator kinds removed / switched off (computed lazily, once per checkpoint
     and combination).  `responsible` = the smallest combination whose removal gives N's answer."""
 
-    def __init__(self, tw: Twin, plan, ll: bool):
+    def __init__(self, tw: Twin, plan, ll: bool, budget: list | None = None):
         self.tw, self.plan, self.ll = tw, plan, ll
         self.cache: dict[tuple, dict] = {}
+        self.budget = budget if budget is not None else [ATTRIBUTION_BUDGET_S]   # seconds left, shared per scenario
 
     def kinds(self):
         return ["commit-graph", "midx", "bitmap"] if self.ll else _present_kinds(self.tw)
 
     def answers(self, kinds: tuple) -> dict:
+        import time
         if kinds not in self.cache:
+            if self.budget[0] <= 0:
+                return {}           # attribution budget of this scenario is spent: "not attributable"
+            t0 = time.time()
             self.cache[kinds] = self._ll(kinds) if self.ll else self._fresh(kinds)
+            self.budget[0] -= time.time() - t0
         return self.cache[kinds]
 
     def responsible(self, key: str, want) -> list[str]:
+        """Smallest combination of kinds whose removal gives N's answer: single kinds, then pairs, then all."""
         import itertools
         ks = self.kinds()
-        for n in range(1, len(ks) + 1):
+        sizes = sorted({1, 2, len(ks)} & set(range(1, len(ks) + 1)))
+        for n in sizes:
             hits = [c for c in itertools.combinations(ks, n) if self.answers(c).get(key) == want]
             if hits:
                 return sorted({k for c in hits for k in c}) if n == 1 else list(hits[0])
@@ -1032,7 +1092,7 @@ class Ablation:
         dst = _copy_without(self.tw, kinds, "f")
         r = Repo(str(dst))
         try:
-            return ask(r, self.tw, self.plan)
+            return ask(r, self.tw, self.plan, ABLATION_TIME_LIMIT)
         finally:
             r.close()
             shutil.rmtree(dst, ignore_errors=True)
@@ -1061,7 +1121,7 @@ class Ablation:
                     p._bitmap, p._bitmap_path = b, path
             undo.append(back)
         try:
-            return ask(tw.A.ll, tw, self.plan)
+            return ask(tw.A.ll, tw, self.plan, ABLATION_TIME_LIMIT)
         finally:
             for u in undo:
                 u()
